@@ -227,10 +227,7 @@ func createLastInsertIDResult(lastInsertID uint64, asName string) *mysql.Result 
 // below look at one token per keyword and compare it case-sensitively; a statement
 // for which this function returns true must be analysed by the parser.
 func MentionsShardTable(sql string, rt *router.Router) bool {
-	words := make(map[string]struct{})
-	for _, word := range strings.FieldsFunc(sql, isNotIdentifierRune) {
-		words[strings.ToLower(word)] = struct{}{}
-	}
+	words := statementWords(sql)
 	for _, tables := range rt.GetAllRules() {
 		for table := range tables {
 			if isMentioned(table, words) {
@@ -241,6 +238,23 @@ func MentionsShardTable(sql string, rt *router.Router) bool {
 	return false
 }
 
+// statementWords: the words of sql, lower-cased. The parser drops the version number
+// that opens an executable comment, so `/*!50000tbl_ks */` and `/*!M100100tbl_ks */`
+// name tbl_ks: in a statement that contains "/*!" a word also counts without such a prefix.
+func statementWords(sql string) map[string]struct{} {
+	words := make(map[string]struct{})
+	versioned := strings.Contains(sql, "/*!")
+	for _, word := range strings.FieldsFunc(sql, isNotIdentifierRune) {
+		words[strings.ToLower(word)] = struct{}{}
+		if versioned {
+			for _, rest := range withoutVersionNumber(word) {
+				words[strings.ToLower(rest)] = struct{}{}
+			}
+		}
+	}
+	return words
+}
+
 // isMentioned: every word of the (lower-cased) table name is among words.
 func isMentioned(table string, words map[string]struct{}) bool {
 	for _, part := range strings.FieldsFunc(table, isNotIdentifierRune) {
@@ -249,6 +263,19 @@ func isMentioned(table string, words map[string]struct{}) bool {
 		}
 	}
 	return true
+}
+
+// withoutVersionNumber: word without a leading M?[0-9]{5,6}, the version number of an
+// executable comment (see specCodeStart of the parser), in the ways it can be read.
+func withoutVersionNumber(word string) []string {
+	var rests []string
+	word = strings.TrimPrefix(word, "M")
+	for n := 0; n < len(word) && n < 6 && '0' <= word[n] && word[n] <= '9'; n++ {
+		if n+1 >= 5 {
+			rests = append(rests, word[n+1:])
+		}
+	}
+	return rests
 }
 
 // isNotIdentifierRune: the parser skips every Unicode white space character before a
